@@ -1,6 +1,7 @@
 """Common plumbing of every check: tiers/seeds, violation grouping, known-findings matching, replay files,
 evidence files, exit codes (0 held / 1 violation / 2 machinery failure)."""
 import json
+import shutil
 import os
 import sys
 import time
@@ -125,6 +126,9 @@ class Ctx:
               "%d unlisted violation groups, %.1fs" % (self.pid, self.tier, self.seed, self.states,
                                                        self.transitions, self.traces, self.evaluations,
                                                        unlisted, time.time() - self.t0))
+        if not unlisted and not os.environ.get("VERIF_KEEP_TRACES"):
+            # the converted traces of a green run are of no further use (replay files are self-contained)
+            shutil.rmtree(os.path.join(OUT, "traces", str(os.getpid())), ignore_errors=True)
         return 1 if unlisted else 0
 
 
